@@ -1,7 +1,7 @@
 #!/usr/bin/env python3
 """Must-fail corpus: applies each mutant (patch) to a scratch copy of /repo under /var/tmp, runs the
 property's quick check against the copy (GOVC_REPO), expects exit 1 with a VIOLATION line, and
-checks that the pristine copy passes. Usage: selftest.py [Cxx ...] [--only name]"""
+checks that the pristine copy passes. Usage: selftest.py [Cxx ...] [--only name] [--match substring-of-name]"""
 import json, os, shutil, subprocess, sys, tempfile, glob, time
 
 VERIF = "/verif"
@@ -23,6 +23,10 @@ def main():
     if "--only" in sys.argv:
         only = sys.argv[sys.argv.index("--only")+1]
         want = [w for w in want if w != only]
+    match = None
+    if "--match" in sys.argv:
+        match = sys.argv[sys.argv.index("--match")+1]
+        want = [w for w in want if w != match]
     muts = []
     for d in sorted(glob.glob(f"{VERIF}/selftest/mutants/*.patch")) + sorted(glob.glob(f"{VERIF}/seeded/*/patch.diff")):
         if d.endswith("patch.diff"):
@@ -34,6 +38,7 @@ def main():
             props = [name.split("_")[0]]
         if want and not any(p in want for p in props): continue
         if only and only != name: continue
+        if match and match not in name: continue
         muts.append((name, d, props))
     benign = []
     for d in sorted(glob.glob(f"{VERIF}/selftest/benign/*.patch")):
@@ -41,6 +46,7 @@ def main():
         props = [name.split("_")[0]]
         if want and not any(p in want for p in props): continue
         if only and only != name: continue
+        if match and match not in name: continue
         benign.append((name, d, props))
     scratch = tempfile.mkdtemp(prefix="govc-self-", dir="/var/tmp")
     copy = os.path.join(scratch, "repo")
